@@ -2041,7 +2041,18 @@ def _bool_eval(e, env):
         return all(vals) if isinstance(e.op, ast.And) else any(vals)
     if isinstance(e, ast.UnaryOp) and isinstance(e.op, ast.Not):
         return not _bool_eval(e.operand, env)
-    return env[str(norm(e))]
+    return env[_canon_atom(e)]
+
+
+def _canon_atom(e):
+    """text of an atomic test with `c == X` / `c != X` written as `X == c` / `X != c` (comparisons commute)"""
+    if isinstance(e, ast.Compare) and len(e.ops) == 1 and isinstance(e.ops[0], (ast.Eq, ast.NotEq)):
+        l, r = e.left, e.comparators[0]
+        l_const = isinstance(l, ast.Constant) or (isinstance(l, ast.Attribute) and str(norm(l)).split(".")[0][:1].isupper())
+        r_const = isinstance(r, ast.Constant) or (isinstance(r, ast.Attribute) and str(norm(r)).split(".")[0][:1].isupper())
+        if l_const and not r_const:
+            return f"{str(norm(r))} {'==' if isinstance(e.ops[0], ast.Eq) else '!='} {str(norm(l))}"
+    return str(norm(e))
 
 
 def _atoms(e, acc):
@@ -2051,7 +2062,7 @@ def _atoms(e, acc):
     elif isinstance(e, ast.UnaryOp) and isinstance(e.op, ast.Not):
         _atoms(e.operand, acc)
     else:
-        acc.add(str(norm(e)))
+        acc.add(_canon_atom(e))
     return acc
 
 
